@@ -9,7 +9,7 @@ import re
 
 from ..program import Program, dotted, norm
 from ..report import AnalysisError
-from ..flow import guards_of, facts
+from ..flow import guards_of, facts, always_exits
 from ..calls import params_of, defaults_of, bind_call, depends_on, local_closure
 from .. import shapes as S
 
